@@ -186,6 +186,9 @@ class Einsum(OpDef):
             return np.einsum(p["subs"], *a)
         return mg.einsum(p["subs"], *a, **kw)
 
+    def ids(self, parent_ids, p):
+        return np.asarray(np.einsum(p["subs"], parent_ids))
+
     def tape(self, tape, nids, p, const, vals):
         return tape.apply("einsum", nids, {"subs": p["subs"]}, const)
 
